@@ -2,7 +2,7 @@
 //! stdin (one per line, hex of valid UTF-8). Per input one line, tab separated, Coq term syntax
 //! (see c16.rs for the encoding of texts and token streams):
 //!
-//!   `<status>\t<in_nbytes>\t<in_scalars>\t<in_lex>\t<out_nbytes>\t<out_scalars>\t<out_lex>\t<out_parse>\t<out_hex>\t<cmap>`
+//!   `<status>\t<in_nbytes>\t<in_scalars>\t<in_lex>\t<out_nbytes>\t<out_scalars>\t<out_lex>\t<out_parse>\t<out_hex>\t<cmap>\t<in_ucls>`
 //!
 //!   cmap       the REAL `CommentMap::from_src(input)` (through `Formatter::with_comments_context`): its entries
 //!              in BTreeMap iteration order as `XCmap [(span, kind);...]`, or `XCmapNone` when it errs/panics
@@ -23,7 +23,7 @@ use sway_features::ExperimentalFeatures;
 fn handle(line: &str) -> String {
     let bytes = if line == "-" { vec![] } else { hex_decode(line) };
     let text = String::from_utf8(bytes).expect("case is not valid UTF-8");
-    let (in_scal, _in_ucls, in_lex) = c16::dump_text(&text);
+    let (in_scal, in_ucls, in_lex) = c16::dump_text(&text);
     let cm = guarded(|| {
         let mut f = swayfmt::Formatter::default();
         if f.with_comments_context(&text).is_err() {
@@ -56,11 +56,11 @@ fn handle(line: &str) -> String {
     });
     match r {
         Err(p) => format!(
-            "fmt-panic {}\t{}\t{}\t{}\t-\t-\t-\t-\t-\t{}",
+            "fmt-panic {}\t{}\t{}\t{}\t-\t-\t-\t-\t-\t{}\t{}",
             p.chars().map(|c| if c.is_control() { ' ' } else { c }).take(160).collect::<String>(),
-            text.len(), in_scal, in_lex, cm_s
+            text.len(), in_scal, in_lex, cm_s, in_ucls
         ),
-        Ok(Err(_)) => format!("fmt-err\t{}\t{}\t{}\t-\t-\t-\t-\t-\t{}", text.len(), in_scal, in_lex, cm_s),
+        Ok(Err(_)) => format!("fmt-err\t{}\t{}\t{}\t-\t-\t-\t-\t-\t{}\t{}", text.len(), in_scal, in_lex, cm_s, in_ucls),
         Ok(Ok(out)) => {
             let (out_scal, _u, out_lex) = c16::dump_text(&out);
             let p = guarded(|| {
@@ -69,8 +69,8 @@ fn handle(line: &str) -> String {
                 r.is_ok() && !handler.has_errors()
             });
             let ps = match p { Ok(true) => "1", Ok(false) => "0", Err(_) => "2" };
-            format!("fmt-ok\t{}\t{}\t{}\t{}\t{}\t{}\t{}\t{}\t{}", text.len(), in_scal, in_lex, out.len(), out_scal, out_lex, ps,
-                    if out.is_empty() { "-".to_string() } else { hex::encode(&out) }, cm_s)
+            format!("fmt-ok\t{}\t{}\t{}\t{}\t{}\t{}\t{}\t{}\t{}\t{}", text.len(), in_scal, in_lex, out.len(), out_scal, out_lex, ps,
+                    if out.is_empty() { "-".to_string() } else { hex::encode(&out) }, cm_s, in_ucls)
         }
     }
 }
